@@ -75,6 +75,14 @@ var preludeFns = map[string]preludeFn{
 	"bstr_content":      {[]Sort{SBytes}, SBytes},
 	"item_wf":           {[]Sort{SBytes}, SBool},
 	"abs":               {[]Sort{SInt}, SInt},
+	"byte1":             {[]Sort{SInt}, SBytes},
+	"wf_err":            {[]Sort{SAny, SBytes}, SAny},
+	"b_major":           {[]Sort{SBytes}, SInt},
+	"b_ai":              {[]Sort{SBytes}, SInt},
+	"head_arg":          {[]Sort{SBytes}, SInt},
+	"head_extra":        {[]Sort{SBytes}, SInt},
+	"enc_list_ok":       {[]Sort{SCVL}, SBool},
+	"cv_bool":           {[]Sort{SBool}, SCV},
 }
 
 func (env *SEnv) call(e *SExpr) *SVal {
@@ -181,6 +189,14 @@ func (env *SEnv) call(e *SExpr) *SVal {
 		p := App(SAddr, "curve_params", x.T)
 		HP, B := u.comp(env.cur, hcomp(SAddr)), u.comp(env.cur, "BIG")
 		return &SVal{T: App(SInt, "bitlen", Select(B, Select(HP, FieldAddrT(p, 1))))}
+	case "asmap":
+		// conversion of a named map type (ProtectedHeader, UnprotectedHeader, CWTClaims) to map[any]any
+		x := env.eval(e.Args[0])
+		if _, ok := x.Go.Underlying().(*types.Map); !ok {
+			env.fail("asmap of non-map")
+		}
+		anyT := types.Universe.Lookup("any").Type()
+		return &SVal{T: x.T, Go: types.NewMap(anyT, anyT)}
 	case "ecpub":
 		x := env.eval(e.Args[0])
 		return &SVal{T: u.ecdsaPubAbs(env.cur, x.T)}
@@ -265,8 +281,17 @@ func (env *SEnv) callSpec(sf *SpecFn, args []*SExpr) *SVal {
 	ret := u.eng.resolveType(sf.Ret)
 	vals := make([]*SVal, len(args))
 	for i, a := range args {
-		v := env.eval(a)
 		pt := u.eng.resolveType(sf.Params[i].Type)
+		if pt.Go != nil {
+			if _, isStruct := pt.Go.Underlying().(*types.Struct); isStruct {
+				// struct parameters are passed as places when possible (fields are loaded on demand)
+				if pl := env.evalPlace(a); pl.HasAddr && pl.T.S == "" && pl.Go != nil && types.Identical(pl.Go, pt.Go) {
+					vals[i] = pl
+					continue
+				}
+			}
+		}
+		v := env.eval(a)
 		if pt.Go != nil {
 			v = env.coerceGo(v, pt.Go)
 			v = &SVal{T: v.T, Go: pt.Go}
@@ -285,7 +310,7 @@ func (env *SEnv) callSpec(sf *SpecFn, args []*SExpr) *SVal {
 	if env.depth > 20 {
 		env.fail("spec function expansion too deep (recursive?) at %s", sf.Name)
 	}
-	n := &SEnv{u: u, cur: env.cur, old: env.old, vars: map[string]*SVal{}, depth: env.depth + 1, fn: env.fn, pc: env.pc}
+	n := &SEnv{u: u, cur: env.cur, old: env.old, vars: map[string]*SVal{}, depth: env.depth + 1, fn: env.fn, pc: env.pc, noAssume: env.noAssume}
 	for i, p := range sf.Params {
 		n.vars[p.Name] = vals[i]
 	}
